@@ -7,6 +7,7 @@ import Driver.Verbs
 import Driver.C03
 import Driver.C09
 import Driver.Re
+import Driver.C13
 namespace Driver
 
 def dispatch (op : String) : Option Handler :=
@@ -30,6 +31,7 @@ def dispatch (op : String) : Option Handler :=
   | "cmp" => some C09.cmp
   | "cmp3" => some C09.cmp3
   | "dslsort" => some C09.dslsort
+  | "join" => some C13.join
   | "re" => some Re.re
   | "bystand" => some C03.bystand
   | "pair" => some Verbs.pair
